@@ -23,6 +23,7 @@ from vlib import Violation
 import evo
 
 FILES = vlib.BUILD / ("C07" + vlib.ALT_TAG)
+_BLOCK_TYPE = __import__("re").compile(r"block_type='Conv[23]d'")
 
 
 def _coq_str(s):
@@ -212,7 +213,14 @@ class C07(vlib.Driver):
     def _snap(pop):
         out = []
         for ag in evo.snapshot(pop):
-            out.append({"slots": [[s[0], s[1], list(s[2]), s[3]] for s in ag["slots"]], "struct": ag["struct"]})
+            st = ag["struct"]
+            for d in st["nets"].values():
+                # C01 known finding (faithful@dict:{MADDPG,MATD3,IPPO}:arch, frame@dict:*:struct): multi-agent networks built
+                # without an explicit cnn_config share the module-level DefaultCnnConfig object, whose block_type is flipped
+                # in place to Conv3d by the first rebuild in the process (of ANY agent).  It is unused for Dict spaces without
+                # image sub-spaces (the only ones generated here) and unrelated to checkpoints, so it is normalised away.
+                d["arch"] = _BLOCK_TYPE.sub("block_type='ConvNd'", d["arch"])
+            out.append({"slots": [[s[0], s[1], list(s[2]), s[3]] for s in ag["slots"]], "struct": st})
         return out
 
     # ------------------------------------------------------------------ model term
